@@ -215,15 +215,19 @@ func (g *Gen) goType(t *Ty, depth int) *GT {
 			}
 		}
 		x := g.R.Intn(20)
-		if uniform && x < 6 {
+		if uniform && x < 8 {
 			e := g.goType(t.Elems[0], depth-1)
 			if x < 4 {
 				return &GT{Name: "slice", Elems: []*GT{e}}
 			}
 			return &GT{Name: "array", N: len(t.Elems), Elems: []*GT{e}}
 		}
-		if x < 13 {
+		if x < 12 {
 			return &GT{Name: "slice", Elems: []*GT{{Name: "iface"}}}
+		}
+		if x < 14 {
+			// [N]interface{}: the reflect.Array branch of marshalTuple with interface elements (nil, typed nils, ...)
+			return &GT{Name: "array", N: len(t.Elems), Elems: []*GT{{Name: "iface"}}}
 		}
 		s := &GT{Name: "struct"}
 		for _, e := range t.Elems {
@@ -525,9 +529,7 @@ func (g *Gen) Value(t *Ty, gt *GT) *Val {
 		}
 		return &Val{Tag: "ptr", Elems: []*Val{g.Value(t, gt.Elems[0])}}
 	case "iface":
-		// (an untyped nil bound to a tuple column panics in marshalTuple: driven by fixed ops and at top level only,
-		// so that inside a Go map - random iteration order - every failing entry fails the same way)
-		if g.chance(12) && t.Name != "tuple" {
+		if g.chance(12) {
 			return &Val{Tag: "nil"}
 		}
 		if g.chance(3) {
